@@ -214,6 +214,16 @@ func execC20(t *testing.T, plan any, r *simkit.Run) {
 	kinds := map[string]bool{}
 	for i := range p.Ops {
 		op := &p.Ops[i]
+		// a plan decoded from a replay file has nil where the generated plan had an
+		// empty value: normalise so that both execute identically
+		if op.Val == nil {
+			op.Val = []byte{}
+		}
+		for j := range op.Batch {
+			if op.Batch[j].Val == nil {
+				op.Batch[j].Val = []byte{}
+			}
+		}
 		kinds[op.Kind] = true
 		r.FP(op.Kind)
 		switch op.Kind {
